@@ -46,10 +46,32 @@ def one(what, xs):
         raise AnchorMissing('%s: expected exactly one candidate, found %d (%s)' % (what, len(xs), ', '.join(map(str, xs))[:300]))
     return xs[0]
 
+def resolve_item_channel(facts):
+    """The per-search item channel, by role: the search routing map is the struct field of type HashMap<RequestId, S<P>> with P the
+    item payload (SearchItem, Vec<Control>) - S is whatever sender the program uses for it (tokio's unbounded sender today; how the
+    alias that names it is spelled, or which mpsc flavour it resolves to, is not part of the role).  The type strings that other
+    rules compare with (T_ITEM_SENDER, T_SEARCHMAP, T_ITEM_RECEIVER) are re-derived from the analysed program on every run."""
+    global T_ITEM_SENDER, T_SEARCHMAP, T_ITEM_RECEIVER
+    pre, suf = 'std::collections::hash::map::HashMap<i32, ', '<%s>>' % T_ITEM_PAYLOAD
+    vals = set()
+    for it in facts.items.values():
+        if it.get('kind') == 'Struct':
+            for v in it['variants']:
+                for f in v['fields']:
+                    t = f['ty']
+                    if t.startswith(pre) and t.endswith(suf) and ',' not in t[len(pre):-len(suf)] and '<' not in t[len(pre):-len(suf)]:
+                        vals.add(t[len(pre):-1])
+    sender = one('item sender type (value type of the search routing map HashMap<RequestId, S<(SearchItem, Vec<Control>)>>)', vals)
+    T_ITEM_SENDER = sender
+    T_SEARCHMAP = pre + sender + '>'
+    head = sender[:-len('<%s>' % T_ITEM_PAYLOAD)]
+    T_ITEM_RECEIVER = (head[:-len('Sender')] + 'Receiver' if head.endswith('Sender') else head) + '<%s>' % T_ITEM_PAYLOAD
+
 class Conn:
     """Resolved anchors of the driver / handle pair."""
     def __init__(self, facts):
         self.facts = facts
+        resolve_item_channel(facts)
         # the driver struct: has both routing maps
         rm = struct_fields_of_type(facts, T_RESULTMAP)
         sm = struct_fields_of_type(facts, T_SEARCHMAP)
